@@ -45,6 +45,7 @@ RULE = ("every storage mode {plain x.csv; compress=True under x.csv / x.zip / x;
         "back the same) and layout variants of all-float frames {2-D block C / Fortran / float32 / strided "
         "view, read-only block} x 4 shapes x 5 modes, judged cell by cell by the same oracle.")
 ASSUMPTIONS = [
+    "text values made of blanks only are not in the alphabet: a one-column frame holding one is written as a blank line, which the CSV reader skips (a limit of the text format; seen when the value was tried, not judged); values with a leading or a trailing blank are in the alphabet",
     "missing values (NaN, None, empty text) are outside: the statement speaks of non-empty text and numeric values",
     "strings pandas itself re-types on reading ('NA', '1e3', 'True', digits-only text) are outside the stated text alphabet; the header value '9' is kept because comments come back as strings",
     "column names, comment values and text with leading/trailing blanks, a comment value holding a run of >= 10 dashes, keys with upper case / blanks / > 25 characters are outside the enumerated alphabets (the reader strips / re-keys them)",
@@ -65,8 +66,8 @@ FULL_LAYOUT = 5
 
 NAMES = ["a", "A1", "col 2", "x-y", "_u", "9z"]
 NAMES_X = ["B_2-c", "0", "Zz 9 y", "u__v"]
-TEXTS = ["abc", "a,b", 'q"t', "k: v", "#h", "sp ace"]
-TEXT_LABEL = ["abc", "comma", "quote", "colon", "hash", "space"]
+TEXTS = ["abc", "a,b", 'q"t', "k: v", "#h", "sp ace", " lead", "trail "]
+TEXT_LABEL = ["abc", "comma", "quote", "colon", "hash", "space", "leading-blank", "trailing-blank"]
 TEXTS_X = ["x;y", "it's", "50%", "a|b"]
 KEYS = ["info", "a_key", "k234567890123456789012345"]        # the last one has 25 characters
 CVALS = ["plain", "with: colon", "x:y:z", "#lead", "a , b", "9", "410730 : Cotter at : Gingera"]
@@ -405,6 +406,16 @@ def check_case(ctx, csv, pd, case):
                         csv.write_csv(sib, "zzz/%s.csv" % stem, {"info": "sibling written after"}, SOURCE, archive=arc, **kw)
                         csv.write_csv(sib, "%s.csv" % stem, {"info": "sibling at the root"}, SOURCE, archive=arc, **kw)
             else:
+                if case.get("stale"):
+                    # folder history: another frame was stored earlier under the same stem in the OTHER physical
+                    # file (x.zip before the plain x.csv / plain x.csv before x.zip); the judged file is then
+                    # written and read back under its exact name
+                    old = pd.DataFrame({"stale": [1.5, 2.5, 3.5], "older": [7, 8, 9]})
+                    if mode == "plain":
+                        csv.write_csv(old, base / (stem + ".csv"), {"info": "stale frame"}, SOURCE, compress=True, **kw)
+                    elif mode == "zip-zip":
+                        csv.write_csv(old, base / (stem + ".csv"), {"info": "stale frame"}, SOURCE, compress=False, **kw)
+                    ctx.count("stale_sibling_in_folder.%s" % "+".join(sorted(os.listdir(tmp))))
                 csv.write_csv(df, fname, comment, SOURCE, compress=(mode != "plain"), **kw)
         except Exception as e:
             ctx.case(nt)
@@ -540,6 +551,12 @@ def run_unit(unit, ctx):
                         first = False
                     ctx.count("archive_with_siblings")
                     check_case(ctx, csv, pd, case)
+                    for smode in ("plain", "zip-zip"):
+                        case = build_case(smode, layout, ti, ci, (), al)
+                        if case is None:
+                            continue
+                        case["stale"] = True
+                        check_case(ctx, csv, pd, case)
         return
     if unit["kind"] == "ladder":
         for case in ladder_cases(unit, al):
